@@ -128,6 +128,102 @@ def key_of_site(func, cache_suffix):
     return components(k), g
 
 
+# ---- what the miss branch of a cache READS (free names / attribute paths of the block), classified
+
+BUILTIN = {'enumerate', 'len', 'zip', 'list', 'range', 'sorted', 'tuple', 'repeat', 'issubclass', 'throw', 'NotImplementedError', 'Entity', 'HashableDict'}
+STATIC_ATTRS = {'_table_', '_pk_columns_', '_pk_converters_', '_pk_attrs_', '_database_', '_database_.provider.translator_cls.row_value_syntax', '_discriminator_attr_',
+                '_construct_discriminator_criteria_', '__class__', '_attrs_with_columns_', '_attrs_with_bit_', 'columns', 'converters', 'reverse', 'reverse_columns',
+                'symmetric', 'table', 'entity._database_', '_ast2sql', 'provider.dialect', 'provider.ast2sql', '_get_cache'}
+STATIC_FUNCS = {'construct_batchload_criteria_list', 'populate_criteria_list'}
+# name / path -> the key fields it is (a function of); per site
+READ_CLASS = {
+    '_construct_batchload_sql_': {'attr': ['attr'], 'batch_size': ['batch_size'], 'from_seeds': ['from_seeds'],
+                                  'entity._construct_select_clause_': ['attrs_to_prefetch']},    # the select list reads the prefetch context the key's frozen set was taken from
+    '_construct_sql_': {'for_update': ['for_update'], 'limit': ['limit'], 'nowait': ['nowait'], 'order_by_pk': ['order_by_pk'], 'skip_locked': ['skip_locked'],
+                        'sorted_query_attrs': ['sorted_query_attrs'], 'query_attrs': ['sorted_query_attrs'], 'query_attrs.get': ['sorted_query_attrs'],
+                        'entity._construct_select_clause_': ['sorted_query_attrs', 'active_prefetch_context']},
+    '_save_created_': {'attrs': ['attrs'], 'auto_pk': ['attrs']},                               # auto_pk <=> the pk attribute was skipped
+    '_save_updated_': {'update_columns': ['update_columns'], 'optimistic_columns': ['optimistic_columns'], 'optimistic_converters': ['optimistic_columns'],
+                       'optimistic_ops': ['optimistic_ops'], 'obj._wbits_': ['update_columns']},   # the written attributes are those whose columns are update_columns
+    '_save_deleted_': {},
+    '_construct_sql_and_arguments': {'aggr_func_distinct': ['aggr_func_distinct'], 'aggr_func_name': ['aggr_func_name'], 'sep': ['sep'], 'limit': ['limit'], 'offset': ['offset'],
+                                     'query._distinct': ['distinct'], 'query._for_update': ['for_update'], 'query._nowait': ['nowait'], 'query._skip_locked': ['skip_locked'],
+                                     'translator.construct_sql_ast': ['query_key', 'vartypes', 'fixed_param_values', 'attrs_to_prefetch', 'active_prefetch_context'],
+                                     'database.provider.ast2sql': ['inner_join_syntax']},
+}
+
+
+def miss_block(fn, var):
+    for n in ast.walk(fn):
+        if isinstance(n, ast.If) and src(n.test) == '%s is None' % var: return n.body
+    def scan(body):
+        for i, st in enumerate(body):
+            if isinstance(st, ast.If) and src(st.test) == '%s is not None' % var and isinstance(st.body[0], ast.Return): return body[i + 1:]
+        return None
+    return scan(fn.body)
+
+
+def free_reads(block):
+    """names / attribute paths loaded in the block before the block itself assigns the root name"""
+    stored = set(); out = []
+    def chain(n):
+        parts = []
+        while isinstance(n, ast.Attribute): parts.append(n.attr); n = n.value
+        return '.'.join([n.id] + parts[::-1]) if isinstance(n, ast.Name) else None
+    def loads(node):
+        if node is None: return
+        if isinstance(node, ast.Attribute) and isinstance(node.ctx, ast.Load):
+            c = chain(node)
+            if c is not None:
+                if c.split('.')[0] not in stored: out.append(c)
+                return
+        if isinstance(node, ast.Name):
+            if isinstance(node.ctx, ast.Load) and node.id not in stored: out.append(node.id)
+            return
+        if isinstance(node, (ast.ListComp, ast.GeneratorExp, ast.SetComp, ast.DictComp)):
+            for gen_ in node.generators:
+                loads(gen_.iter); store(gen_.target)
+                for c in gen_.ifs: loads(c)
+            for part in ([node.elt] if not isinstance(node, ast.DictComp) else [node.key, node.value]): loads(part)
+            return
+        for ch in ast.iter_child_nodes(node): loads(ch)
+    def store(t):
+        for n in ast.walk(t):
+            if isinstance(n, ast.Name): stored.add(n.id)
+    def stmt(st):
+        if isinstance(st, ast.Assign):
+            loads(st.value)
+            for t in st.targets:
+                if isinstance(t, (ast.Subscript, ast.Attribute)): loads(t)
+                else: store(t)
+        elif isinstance(st, ast.For):
+            loads(st.iter); store(st.target)
+            for x in st.body + st.orelse: stmt(x)
+        elif isinstance(st, (ast.If, ast.While)):
+            loads(st.test)
+            for x in st.body + st.orelse: stmt(x)
+        elif isinstance(st, ast.With):
+            for it in st.items: loads(it.context_expr)
+            for x in st.body: stmt(x)
+        else: loads(st)
+    for st in block: stmt(st)
+    return sorted(set(out))
+
+
+def classify_reads(site, reads):
+    """-> list of Field names the block's value can depend on; raises Unknown for a read the model has no account of"""
+    table = READ_CLASS[site]
+    fields = []
+    for r in reads:
+        root, _, rest = r.partition('.')
+        if r in table: fields += table[r]; continue
+        if r in BUILTIN or r in STATIC_FUNCS: continue
+        if r in ('query_key', 'sql_key', 'cache_key') or r.endswith('_cache_') or r.endswith('_cache') or r.endswith('cached_load_sql'): continue   # the key / the cache itself
+        if root in ('entity', 'obj', 'attr', 'database', 'rentity', 'reverse') and (rest in STATIC_ATTRS or rest.split('.')[0] == '__class__'): continue   # schema constants
+        raise Unknown('%s: the miss branch reads %r, which the model does not account for' % (site, r))
+    return sorted(set(fields), key=fields.index)
+
+
 def analyse(repo):
     core = ast.parse(open(os.path.join(repo, 'pony', 'orm', 'core.py')).read())
     asttr = ast.parse(open(os.path.join(repo, 'pony', 'orm', 'asttranslation.py')).read())
@@ -154,6 +250,16 @@ def analyse(repo):
             sk = target.slice
             lk = g.args[0]
             if src(sk) != src(lk): raise Unknown('%s: stored under %s, looked up with %s' % (qual, src(sk), src(lk)))
+    # what each miss branch reads, from the source
+    for name, qual, var in (('batchloadReads', 'EntityMeta._construct_batchload_sql_', 'cached_sql'), ('findReads', 'EntityMeta._construct_sql_', 'cached_sql'),
+                            ('insertSqlReads', 'Entity._save_created_', 'cached_sql'), ('updateSqlReads', 'Entity._save_updated_', 'cached_sql'),
+                            ('deleteSqlReads', 'Entity._save_deleted_', 'cached_sql'), ('constructedSqlReads', 'Query._construct_sql_and_arguments', 'cache_entry')):
+        fn = find_func(core, qual)
+        blk = miss_block(fn, var)
+        if not blk: raise Unknown('%s: miss branch not found' % qual)
+        raw = free_reads(blk)
+        f[name + 'Raw'] = raw
+        f[name] = classify_reads(qual.split('.')[1], raw)
     # the translator key: Query.__init__  `query._key = HashableDict(code_key=…, vartypes=…, left_join=…, filters=())`
     qi = find_func(core, 'Query.__init__')
     a = assigns(qi, 'query._key')
@@ -296,6 +402,17 @@ def analyse(repo):
             if lab not in LAB: raise Unknown('_process_lambda: label %r' % (lab,))
             rows.append((has_args, ob, eff, LAB[lab], method))
     f['lambdaLabels'] = [list(r) for r in rows]
+    # the other filters-key entries: the entry carries exactly what the derivation is computed from
+    ob = src(find_func(core, 'Query._order_by'))
+    for need in ("tup = (('without_order',),)", "tup = (('order_by_numbers' if numbers else 'order_by_attributes', args),)"):
+        if need not in ob: raise Unknown('Query._order_by: filters-key entry is no longer %s' % need)
+    if ob.count("new_key = HashableDict(query._key, filters=query._key['filters'] + tup)") != 2: raise Unknown('Query._order_by: key is not built from tup')
+    if 'order_by_numbers(args)' not in ob or 'order_by_attributes(args)' not in ob: raise Unknown('Query._order_by: derivation arguments changed')
+    ak = src(find_func(core, 'Query._apply_kwargs'))
+    if "tup = (('apply_kwfilters', filterattrs, original_names),)" not in ak or "new_key = HashableDict(query._key, filters=query._key['filters'] + tup)" not in ak \
+            or 'apply_kwfilters(filterattrs, original_names)' not in ak or 'filterattrs.append((attr, id, val is None))' not in ak:
+        raise Unknown('Query._apply_kwargs: the filters-key entry is not (apply_kwfilters, filterattrs, original_names) with filterattrs = (attr, id, val is None)')
+    f['derivationKeyEntriesCarryArguments'] = True
     # create_extractors: is a hit re-validated against the classification of the called names in the new scope
     ce = find_func(asttr, 'create_extractors')
     ces = src(ce)
@@ -338,6 +455,10 @@ def render(f):
              'import PonyVerif.Model.Memo', 'namespace PonyVerif.Gen.CacheKeys', 'open PonyVerif.Model.Memo', '']
     for name in ('batchloadKey', 'findKey', 'insertSqlKey', 'updateSqlKey', 'deleteSqlKey', 'constructedSqlKey', 'bulkDeleteSqlKey',
                  'translatorKey', 'resultKey', 'string2astKey', 'extractorsKey', 'astKey', 'adaptLookupKey', 'adaptStoreKey'):
+        lines.append(lst(name))
+    lines.append('/-- the input fields each miss branch READS (free names and attribute paths of the block, extracted from the source and classified:')
+    lines.append('    schema constants and pure helpers dropped, aliases and derived values mapped to the inputs they are functions of) -/')
+    for name in ('batchloadReads', 'findReads', 'insertSqlReads', 'updateSqlReads', 'deleteSqlReads', 'constructedSqlReads'):
         lines.append(lst(name))
     lines.append('/-- `Entity._load_` stores under `pk_attrs + (discriminator,)? + attrs` although it looks up with `attrs` -/')
     lines.append('def loadStoreRebound : Bool := %s' % b(f['loadStoreRebinds']))
